@@ -176,13 +176,23 @@ impl TransitivityProof {
 }
 
 // replaces 'private' slots with enumerated slot-names, like a shape.
+// The bound slots are numbered among themselves, not together with the free slots that occur before
+// them: two e-nodes that differ only in the slots of a child preceding a binder get the same names.
 pub(crate) fn alpha_normalize<L: Language>(n: &L) -> L {
-    let (sh, bij) = n.weak_shape();
+    let (mut sh, bij) = n.weak_shape();
+    let mut prv: Vec<Slot> = sh.private_slots().into_iter().collect();
+    prv.sort();
     if CHECKS {
-        let all_slots: SmallHashSet<_> = sh.all_slot_occurrences().into_iter().collect();
-        assert!(&bij.values().is_disjoint(&all_slots));
+        let bound: SmallHashSet<_> = (0..prv.len()).map(|k| Slot::numeric(k as u32)).collect();
+        assert!(&bij.values().is_disjoint(&bound));
     }
-    sh.apply_slotmap(&bij)
+    for x in sh.all_slot_occurrences_mut() {
+        *x = match bij.get(*x) {
+            Some(y) => y,
+            None => Slot::numeric(prv.iter().position(|p| p == x).unwrap() as u32),
+        };
+    }
+    sh
 }
 
 impl CongruenceProof {
